@@ -7,8 +7,8 @@ import (
 	"math/rand/v2"
 	"time"
 
-	"github.com/notaryproject/notation-core-go/signature"
 	revresult "github.com/notaryproject/notation-core-go/revocation/result"
+	"github.com/notaryproject/notation-core-go/signature"
 	"github.com/notaryproject/notation-go"
 	"github.com/opencontainers/go-digest"
 	ocispec "github.com/opencontainers/image-spec/specs-go/v1"
@@ -30,10 +30,10 @@ func (c01) Rule() string {
 func (c01) Components() map[string]string {
 	return map[string]string{
 		"verifier.Verify / VerifyBlob, notation.Verify / VerifyBlob": "real",
-		"signatures":             "made by the real signer (notation-go over notation-core-go)",
+		"signatures":                       "made by the real signer (notation-go over notation-core-go)",
 		"registry (entry notation.Verify)": "scripted repository delivering the stored bytes",
-		"trust store, revocation": "scripted stubs with injected failures",
-		"judge":                  "independent: notation-core-go envelope verification + exact-key payload decoding + digest recomputation",
+		"trust store, revocation":          "scripted stubs with injected failures",
+		"judge":                            "independent: notation-core-go envelope verification + exact-key payload decoding + digest recomputation",
 	}
 }
 
